@@ -85,8 +85,22 @@ func (s *csSuite) modState() string {
 		}
 		pools = append(pools, tokenSafe(p.CounterpartyDenom)+":"+p.LptDenom+":"+w.Alias(a))
 	}
+	// the same records as the keeper's point lookups see them (by pool id and through the lpt-denom index)
+	var pq []string
+	for _, d := range csDenoms {
+		if p, ok := w.App.CoinswapKeeper.GetPool(w.Ctx, coinswaptypes.GetPoolId(d)); ok {
+			a, _ := sdk.AccAddressFromBech32(p.EscrowAddress)
+			pq = append(pq, tokenSafe(p.CounterpartyDenom)+":"+p.LptDenom+":"+w.Alias(a))
+		}
+	}
+	for i := uint64(1); i < g.Sequence+2; i++ {
+		if p, ok := w.App.CoinswapKeeper.GetPoolByLptDenom(w.Ctx, fmt.Sprintf("lpt-%d", i)); ok {
+			a, _ := sdk.AccAddressFromBech32(p.EscrowAddress)
+			pq = append(pq, "byLpt."+tokenSafe(p.CounterpartyDenom)+":"+p.LptDenom+":"+w.Alias(a))
+		}
+	}
 	bt := w.Ctx.BlockTime()
-	return fmt.Sprintf("t=%d.%d std=%s fee=%s tax=%s cfd=%s cfa=%s maxstd=%s ms=%s seq=%d pools=%s",
+	return fmt.Sprintf("pq=%s ", strings.Join(pq, ",")) + fmt.Sprintf("t=%d.%d std=%s fee=%s tax=%s cfd=%s cfa=%s maxstd=%s ms=%s seq=%d pools=%s",
 		bt.Unix(), bt.Nanosecond(), g.StandardDenom,
 		g.Params.Fee.BigInt().String(), g.Params.TaxRate.BigInt().String(),
 		tokenSafe(g.Params.PoolCreationFee.Denom), g.Params.PoolCreationFee.Amount.String(),
@@ -628,6 +642,19 @@ func (s *csSuite) opSend() {
 		d = csDenoms[r.Intn(4)]
 	}
 	amt := s.amount()
+	if r.Intn(4) == 0 {
+		// pool tokens themselves, parked in an escrow (their own pool's or another's)
+		for _, c := range s.w.App.BankKeeper.GetAllBalances(s.w.Ctx, src) {
+			if strings.HasPrefix(c.Denom, "lpt-") && c.Amount.IsPositive() {
+				d = c.Denom
+				amt = r.Big(250).Mod(c.Amount).AddRaw(1)
+				if r.Intn(2) == 0 {
+					dst = coinswaptypes.GetReservePoolAddr(d)
+				}
+				break
+			}
+		}
+	}
 	preMod, pre := s.modState(), s.w.Snapshot()
 	out := s.w.Deliver(func(ctx sdk.Context) error {
 		return s.w.App.BankKeeper.SendCoins(ctx, src, dst, sdk.NewCoins(sdk.NewCoin(d, amt)))
@@ -725,6 +752,18 @@ func runCoinswap(seed uint64, nOps int, outPath string) map[string]int {
 		s.now = time.Unix(1_700_000_000+int64(s.r.Intn(1000)), int64(s.r.PickInt(0, 0, 500_000_000)))
 		fund := sdk.NewCoins()
 		s.w = NewWorld(5, sdk.NewCoins(sdk.NewCoin("stake", pow2(240)), sdk.NewCoin("ausdc", pow2(240)), sdk.NewCoin("abtc", pow2(240)), sdk.NewCoin("ibc/ETH", pow2(240)), sdk.NewCoin("zjunk", pow10(30))).Add(fund...), s.now)
+		// the last user is poor: transfers out of it fail for insufficient funds *after* the earlier steps of a handler
+		{
+			poor := s.w.Users[len(s.w.Users)-1]
+			for _, c := range s.w.App.BankKeeper.GetAllBalances(s.w.Ctx, poor) {
+				keep := s.amount()
+				if c.Amount.GT(keep) {
+					if err := s.w.App.BankKeeper.SendCoins(s.w.Ctx, poor, s.w.Users[0], sdk.NewCoins(sdk.NewCoin(c.Denom, c.Amount.Sub(keep)))); err != nil {
+						panic(err)
+					}
+				}
+			}
+		}
 		s.ms = coinswapkeeper.NewMsgServerImpl(s.w.App.CoinswapKeeper)
 		s.std, _ = s.w.App.CoinswapKeeper.GetStandardDenom(s.w.Ctx)
 		s.t.Line(s.envLine())
